@@ -2811,9 +2811,42 @@ static Node *struct_ref(Node *node, Token *tok) {
   return node;
 }
 
+// An lvalue for the object `orig` accessed through `ptr`, which points
+// to it (or, for a member access, to the struct it is a member of).
+static Node *deref_tmp(Obj *ptr, Node *orig, Token *tok) {
+  Node *node = new_unary(ND_DEREF, new_var_node(ptr, tok), tok);
+  if (orig->kind != ND_MEMBER)
+    return node;
+  node = new_unary(ND_MEMBER, node, tok);
+  node->member = orig->member;
+  return node;
+}
+
 // Convert A++ to `(typeof A)((A += 1) - 1)`
 static Node *new_inc_dec(Node *node, Token *tok, int addend) {
   add_type(node);
+
+  // The old value of a _Bool cannot be recovered from the new one
+  // (1 + 1 == 1), so save it: `tmp = &A, old = *tmp, *tmp = old + addend, old`.
+  if (node->ty->kind == TY_BOOL) {
+    Node *obj = (node->kind == ND_MEMBER) ? node->lhs : node;
+    Obj *ptr = new_lvar("", pointer_to(obj->ty));
+    Obj *old = new_lvar("", node->ty);
+
+    Node *expr1 = new_binary(ND_ASSIGN, new_var_node(ptr, tok),
+                             new_unary(ND_ADDR, obj, tok), tok);
+    Node *expr2 = new_binary(ND_ASSIGN, new_var_node(old, tok),
+                             deref_tmp(ptr, node, tok), tok);
+    Node *expr3 = new_binary(ND_ASSIGN, deref_tmp(ptr, node, tok),
+                             new_add(new_var_node(old, tok), new_num(addend, tok), tok),
+                             tok);
+    return new_binary(ND_COMMA, expr1,
+                      new_binary(ND_COMMA, expr2,
+                                 new_binary(ND_COMMA, expr3, new_var_node(old, tok), tok),
+                                 tok),
+                      tok);
+  }
+
   return new_cast(new_add(to_assign(new_add(node, new_num(addend, tok), tok)),
                           new_num(-addend, tok), tok),
                   node->ty);
